@@ -106,6 +106,9 @@ type Cfg struct {
 	Evict    int  `json:"evict_permille"`
 	MapOrder int  `json:"map_order"`
 	Scribble bool `json:"scribble"`  // overwrite private input buffers after each call
+	// ReuseBuf: private arguments of successive calls of one task are written into the same memory
+	// (one buffer per argument position), the way a server reuses its request buffer.
+	ReuseBuf bool `json:"reuse_input_buffer,omitempty"`
 	// ScribbleResults: the caller owns what a call returned and writes all over it (up to its
 	// capacity) as soon as it has looked at it - a later call must not notice.
 	ScribbleResults bool `json:"scribble_results,omitempty"`
